@@ -137,6 +137,24 @@ CLAIMED["C11"] = dict(
     ref="6/C11", note=_HIST_NOTE,
     technique="Coq proof (abstract walk machine: termination measure, filter invariant) + exhaustive-subset correspondence")
 
+CLAIMED["C06"] = dict(
+    category="proof",
+    text="PARTIAL. Proved: compress output starts with the input's header and name emission only appends (C06_header_kept, "
+         "C06_name_emission_appends). The packet-level statement (accepted, not longer, same records up to name case, question name byte-identical, "
+         "round trip, pointers designate their suffix in the output) is decided each run by correspondence and a reference-decoder oracle on "
+         "pointer-free packets built to stress the dictionary (nesting 2..30, 31..70 suffixes, 120..200-byte suffixes, mixed case, OPT anywhere, "
+         "all name-bearing types, offsets beyond 16383 in thorough). Known finding: chains deeper than 16 hops.",
+    ref="6/C06", note="trusted: as C01; known finding chain-depth in known_findings.json",
+    technique="Coq model with frame lemmas (proof) + compress/decompress round-trip correspondence with reference-decoder oracle")
+CLAIMED["C07"] = dict(
+    category="proof",
+    text="PARTIAL. Proved: shape of every replacement replace_raw produces (C07_replace_raw_shape). The packet-level statement is decided each "
+         "run by correspondence and the abstract rename applied to the independently decoded message: sources at every label depth, case "
+         "variants, partial-label near misses, identity, overflow past 255 bytes, every name-bearing type, OPT anywhere. Known finding: chains "
+         "deeper than 16 hops.",
+    ref="6/C07", note="trusted: as C01; gen/hist.py apply_rename is the independent abstract rename; known finding chain-depth",
+    technique="Coq model with replacement-shape lemma (proof) + abstract-rename refinement oracle")
+
 PENDING_REASON = "check not built yet in this round (model/theorems in progress; see DESIGN.md section 11 for the order of work)"
 
 
